@@ -143,7 +143,7 @@ func fmtView(m map[int]int) string {
 }
 
 func run(t *testing.T, r *core.R) {
-	r.FaultDecl("restart_mid_snapshot", "restart_before_insync", "restart_after_insync", "restart_before_handshake",
+	r.FaultDecl("unparseable_value", "restart_mid_snapshot", "restart_before_insync", "restart_after_insync", "restart_before_handshake",
 		"restart_with_undelivered", "slow_consumer_step", "lagging_server", "spurious_delete", "status_flap", "connect_fails_forever")
 	r.ProbeDecl("sink_full_batch_100", "delete_for_key_sink_never_held", "resync_needs_deletes", "resync_value_regressed",
 		"drained_insync_check", "restart_while_sink_parked", "key_deleted_while_disconnected", "big_run",
@@ -284,6 +284,18 @@ func simulate(r *core.R) {
 		return api.Update{KVPair: model.KVPair{Key: keys[e.key], Value: mkVal(e.ver), Revision: fmt.Sprint(e.ver)}, UpdateType: ut}
 	}
 
+	// A value the client could not parse (e.g. written by a newer Typha during a rolling upgrade) arrives as an
+	// update of type new/updated whose Value is nil: for everything downstream the resource is absent.
+	pUnparse := []int{0, 0, 20, 60}[r.Src.Intn(4, "p_unparseable")]
+	unparseable := func(u api.Update) (api.Update, bool) {
+		if u.Value == nil || pUnparse == 0 || !r.Src.Chance(pUnparse, "unparseable") {
+			return u, false
+		}
+		r.Fault("unparseable_value")
+		u.Value = nil
+		return u, true
+	}
+
 	reportInSync := func(c *conn) {
 		need := 0
 		for k, v := range sk.view {
@@ -333,8 +345,13 @@ func simulate(r *core.R) {
 			for ; n > 0 && c.snapPos < len(c.snap); n-- {
 				e := c.snap[c.snapPos]
 				c.snapPos++
-				us = append(us, mkUpdate(e))
-				c.view[e.key] = e.ver
+				u, gone := unparseable(mkUpdate(e))
+				us = append(us, u)
+				if gone {
+					delete(c.view, e.key)
+				} else {
+					c.view[e.key] = e.ver
+				}
 				if len(us) <= 6 {
 					desc += fmt.Sprintf("k%03d=v%d ", e.key, e.ver)
 				}
@@ -373,7 +390,8 @@ func simulate(r *core.R) {
 			for ; n > 0 && c.pos < len(history); n-- {
 				e := history[c.pos]
 				c.pos++
-				us = append(us, mkUpdate(e))
+				u, gone := unparseable(mkUpdate(e))
+				us = append(us, u)
 				if _, held := sk.view[e.key]; !held {
 					if _, sent := c.view[e.key]; sent {
 						if e.ver == 0 {
@@ -383,7 +401,7 @@ func simulate(r *core.R) {
 						}
 					}
 				}
-				if e.ver == 0 {
+				if e.ver == 0 || gone {
 					delete(c.view, e.key)
 				} else {
 					c.view[e.key] = e.ver
